@@ -105,6 +105,33 @@ def main(tier, rep):
                     evs.append({"e": "cmp", "op": "construct", "attempts": 1, "stack": stack, "ref": ref,
                                 "got": construct(stack, prefix, uni, enc),
                                 "cfg": {"prefix": repr(prefix), "allow_unicode_keys": uni, "encoding": enc}})
+    # the serializer given in both the current and the legacy way: the same one wins on every stack
+    from pymemcache import serde as S_
+
+    def legacy_ser(key, value):
+        return (value if isinstance(value, bytes) else repr(value).encode()), 77
+
+    def legacy_deser(key, value, flags):
+        return value
+    for extra in (dict(serde=S_.pickle_serde, serializer=legacy_ser, deserializer=legacy_deser),
+                  dict(serializer=legacy_ser, deserializer=legacy_deser), dict(serde=S_.pickle_serde, deserializer=legacy_deser)):
+        def both(kind, extra=extra):
+            try:
+                net, srv, cl = make(kind, False, b"", dict(extra))
+            except Exception as e:   # noqa
+                return {"cmds": [], "res": {"t": "exc", "x": type(e).__name__}, "conn": {"io": [], "est": []}}
+            net.begin_call(1)
+            try:
+                cl.set("k", ("tu", 1), noreply=False)
+                r = cl.get("k")
+                res = {"t": "val", "v": list(repr(r).encode())[:60]}
+            except Exception as e:   # noqa
+                res = {"t": "exc", "x": type(e).__name__}
+            return {"cmds": [CL.canon_cmd(c) for c in net.sent_cmds], "res": res, "conn": {"io": [], "est": []}}
+        ref = both("client")
+        for stack in ("pooled", "hash", "hashpooled", "retrying"):
+            evs.append({"e": "cmp", "op": "serde-precedence", "attempts": 1, "stack": stack, "ref": ref, "got": both(stack),
+                        "cfg": {"options": sorted(extra)}})
     B = 400
     traces = [{"h": {"maxrej": B + 1}, "ev": evs[i:i + B]} for i in range(0, len(evs), B)]
     acc, rej, st, _ = tlc.validate_traces("WrapTrace", traces, chunk=60)
